@@ -735,3 +735,16 @@ def subst_captures(tree, caps):
                 return caps[int(t[2])]
         return tuple(rec(x) if isinstance(x, tuple) else x for x in t)
     return rec(tree)
+
+
+def result_state(a):
+    """('ok'|'err', subject tree) if the atom states which variant a Result is in (match / `?` / is_ok() / is_err())"""
+    if a and a[0] == 'bool' and a[1][0] == 'call' and a[1][2]:
+        n = a[1][1]
+        if n.endswith('Result::is_ok'):
+            return ('ok' if a[2] else 'err', a[1][2][0])
+        if n.endswith('Result::is_err'):
+            return ('err' if a[2] else 'ok', a[1][2][0])
+    if a and a[0] == 'is' and a[2] in ('Ok', 'Err', 'Continue', 'Break'):
+        return ('ok' if a[2] in ('Ok', 'Continue') else 'err', a[1])
+    return None
